@@ -460,14 +460,29 @@ namespace
             bool reuse = !names.empty() && c.coin(70);
             const char* fixed = nullptr;
             if (reuse)
+            {
                 canon = names[c.pick(uint32_t(names.size()))];
+                // A sibling, not a repeat: the other legal token characters ('^' and '~', the only pair of
+                // tchars that differ in nothing but bit 0x20) give a DIFFERENT header whose name equals the
+                // first one under a careless case fold.  Derived from the position, no choice consumed.
+                if (i % 2 == 0 && (canon.back() == '^' || canon.back() == '~'))
+                {
+                    canon.back() = canon.back() == '^' ? '~' : '^';
+                    reuse        = std::find(names.begin(), names.end(), canon) != names.end();
+                    rep.label("lookup:sibling-name(^ vs ~)");
+                }
+            }
             else if (c.coin(110))
             {
                 const RN& r = REG[c.pick(16)];
                 canon       = r.name;
             }
             else
+            {
                 canon = "X-" + c.from(TOKCH, c.range(1, 10));
+                if (canon.size() % 3 == 0) // a third of the free names end in '^' (see the sibling rule above)
+                    canon += '^';
+            }
             bool reg = false;
             for (auto& r : REG)
                 if (lower(r.name) == lower(canon))
